@@ -94,6 +94,13 @@ class Check(RuntimeCheck):
             path = engine.write_replay(self.prop, 'spec', text, [f"configuration B (unimock without std: spin-lock + critical-section): real `{d[0]}` vs required `{d[1]}`",
                                                                   "replay: /verif/harness_nostd/target/debug/replay < this file"])
             rep.violation(path, f"no_std build deviates on scenario {nme}: real `{d[0]}` vs required `{d[1]}`"[:400])
+        # inputs of other shapes than one scalar (zero-sized, several): compiled selection cases
+        from .macro_common import MacroCheck
+        class Generated(MacroCheck):
+            prop = 'C01'
+            case_prefixes = ('sel.',)
+            facts_of_interest = r'$^'
+        Generated().explore_into(rep, tier, seed, ir=False, merge=True)
         rep.coverage['no_std_configuration'] = {'scenarios': total, 'features': 'spin-lock,critical-section (no std)'}
         rep.coverage['evaluations'] = rep.coverage.get('evaluations', 0) + total
 
